@@ -17,6 +17,14 @@ TECH={
  "C09":"deterministic simulation: grammar + independent address parser on every output line",
  "C10":"deterministic simulation with real libevent timers on a simulated clock: reference count model, structural audit, ASan/LSan at exit",
  "C11":"deterministic simulation: independent rule evaluator compared at every acceptance",
+ "C04":"deterministic simulation, differential: same seeded history with and without one injected stray reply, byte-equal outputs",
+ "C07":"deterministic simulation, metamorphic: per-client projections equal across seeded interleavings (and vs solo runs)",
+ "C08":"deterministic simulation with fault injection on the byte pipe: arbitrary bytes, read boundaries, EINTR/EAGAIN, EOF at any byte; sanitizer/exit oracle + differential outputs",
+ "C14":"deterministic simulation: torn/garbled/missing config and failing fread at reload, dump-before == dump-after + hook log + ASan",
+ "C15":"deterministic simulation: seeded reload/registration histories against a reference model of the config store",
+ "C17":"deterministic simulation, differential: reloaded daemon vs freshly started daemon on the same probe clients",
+ "C18":"deterministic simulation: seeded reload histories with nonce messages, reference model of routing checked on file contents",
+ "C20":"deterministic simulation with load-failure injection: ordering invariants over the recorded module lifecycle history",
 }
 checks=[]
 for p in props:
